@@ -12,7 +12,9 @@ Outcomes the Rust code can have that a total function cannot are explicit (`Res`
                  very next line, which panics as well — except `linspace(_, _, 0)`, see there)
 * `diverges`   — fuel of the binary search exhausted (never happens: `Proofs/Interp.lean`)
 
-Not modelled: NaN (the `is_nan` guard of `InterpND::linear` and NaN inputs); `-0.0` is not generated.
+NaN: `v.is_nan()` is `¬ v ≤ v` (true exactly for NaN on doubles, never in a linear order); the `is_nan`
+guard of `InterpND::linear` is modelled, NaN *inputs* to `predict` (`f64::max/min` semantics) are not;
+`-0.0` is not generated.
 Floating point equality `a == b` is `a ≤ b ∧ b ≤ a` (the same predicate on non-NaN doubles, and
 equality in a linear order).
 -/
@@ -24,14 +26,18 @@ namespace Interp
 /-- the `Err(..)` results, by kind -/
 inductive Err where
   | emptyArr        -- find_nearest_index: "Could not get last grid value of arr, is arr empty?"
+  | singleArr       -- find_nearest_index: a single grid value has no cell
   | pointLen        -- validate_inputs: wrong point dimensionality
   | outside         -- validate_inputs: "Supplied point must be within grid"
   | strategy        -- strategy not applicable
   | gridEmpty       -- validate: empty grid coordinates
+  | gridTooShort    -- validate (2-D, 3-D): an axis with fewer than two points
   | notSorted       -- validate: not sorted / repeating
   | shape           -- validate: grid and values are not compatible shapes
   | gridDim         -- validate (ND): length of grid is not the values' dimensionality
   | extract         -- ND: "Could not extract value"
+  | nan             -- ND: "Surrounding value(s) cannot be NaN"
+  | build           -- load_prediction_model: `BuildError` (unreadable model file, ONNX without the feature)
   | emptyAxis       -- speed/grade model: first/last of an empty axis
   | only2D          -- speed/grade model: "Only 2-D interpolators are currently supported"
   deriving DecidableEq, Repr, Inhabited
@@ -95,15 +101,17 @@ def bsearch (arr : List α) (t : α) : Nat → Nat → Nat → Res Nat
 
 /-- `utils::find_nearest_index` -/
 def findNearestIndex (arr : List α) (t : α) : Res Nat :=
-  match arr.getLast? with
-  | none => .err .emptyArr
-  | some last =>
-    if eqv t last then
-      (if arr.length < 2 then .panic .underflow else .ok (arr.length - 2))
-    else
-      (bsearch arr t (arr.length + 1) 0 (arr.length - 1)).bind fun low =>
-        (idx arr low).bind fun v =>
-          if 0 < low ∧ t ≤ v then .ok (low - 1) else .ok low
+  if arr.length = 1 then .err .singleArr
+  else
+    match arr.getLast? with
+    | none => .err .emptyArr
+    | some last =>
+      if eqv t last then
+        (if arr.length < 2 then .panic .underflow else .ok (arr.length - 2))
+      else
+        (bsearch arr t (arr.length + 1) 0 (arr.length - 1)).bind fun low =>
+          (idx arr low).bind fun v =>
+            if 0 < low ∧ t ≤ v then .ok (low - 1) else .ok low
 
 end
 
@@ -118,11 +126,10 @@ def linspaceFrom (dx : α) (prev : α) : Nat → List α
   | 0 => []
   | k + 1 => (prev + dx) :: linspaceFrom dx (prev + dx) k
 
-/-- `utils::linspace`.  `n = 0`: `n - 1` underflows (panic with overflow checks; otherwise the code
-returns the empty vector, which `Interp2D::new` then rejects) -/
+/-- `utils::linspace` (`n = 0`: the empty vector) -/
 def linspace (x0 xend : α) (n : Nat) : Res (List α) :=
   match n with
-  | 0 => .panic .underflow
+  | 0 => .ok []
   | m + 1 =>
     let dx := (xend - x0) / (ofNat m : α)
     .ok (x0 :: linspaceFrom dx x0 m)
@@ -184,6 +191,7 @@ def idx2 (f : List (List α)) (i j : Nat) : Res α := (idx f i).bind fun r => id
 /-- `Interp2D::validate` -/
 def validate2 (x y : List α) (f : List (List α)) : Res Unit :=
   if x.length = 0 ∨ y.length = 0 then .err .gridEmpty
+  else if x.length < 2 ∨ y.length < 2 then .err .gridTooShort
   else if !(strictlyIncreasing x && strictlyIncreasing y) then .err .notSorted
   else if !(decide (x.length = f.length) && f.all (fun r => decide (r.length = y.length))) then .err .shape
   else .ok ()
@@ -209,6 +217,7 @@ def idx3 (f : List (List (List α))) (i j k : Nat) : Res α := (idx f i).bind fu
 /-- `Interp3D::validate` -/
 def validate3 (x y z : List α) (f : List (List (List α))) : Res Unit :=
   if x.length = 0 ∨ y.length = 0 ∨ z.length = 0 then .err .gridEmpty
+  else if x.length < 2 ∨ y.length < 2 ∨ z.length < 2 then .err .gridTooShort
   else if !(strictlyIncreasing x && strictlyIncreasing y && strictlyIncreasing z) then .err .notSorted
   else if !(decide (x.length = f.length) && f.all (fun r => decide (r.length = y.length))
       && f.all (fun r => r.all (fun s => decide (s.length = z.length)))) then .err .shape
@@ -282,15 +291,21 @@ def ndCheckShape : Nat → List (List α) → List Nat → Res Unit
   | _ + 1, _ :: _, [] => .panic .index
   | k + 1, g :: gs, s :: ss => if g.length ≠ s then .err .shape else ndCheckShape k gs ss
 
-/-- `InterpND::validate` -/
+/-- the grid count `InterpND::validate` compares with the dimensionality: 0 when there is no grid or the
+first one is empty -/
+def ndGridLen (grid : List (List α)) : Nat :=
+  match grid with
+  | g0 :: _ => if g0.isEmpty then 0 else grid.length
+  | [] => 0
+
+/-- `InterpND::validate`: the grid count against the dimensionality first, then the per-dimension loops -/
 def validateN (m : ND α) : Res Unit :=
   let n := m.ndim
-  (ndCheckNonEmpty n m.grid).bind fun _ =>
-    (ndCheckSorted n m.grid).bind fun _ =>
-      (ndCheckShape n m.grid m.shape).bind fun _ =>
-        (idx m.grid 0).bind fun g0 =>
-          let gridLen := if g0.isEmpty then 0 else m.grid.length
-          if gridLen ≠ n then .err .gridDim else .ok ()
+  if ndGridLen m.grid ≠ n then .err .gridDim
+  else
+    (ndCheckNonEmpty n m.grid).bind fun _ =>
+      (ndCheckSorted n m.grid).bind fun _ =>
+        ndCheckShape n m.grid m.shape
 
 /-- what the first loop of `InterpND::linear` decides per dimension -/
 inductive Plan (α : Type) where
@@ -346,6 +361,17 @@ def ndEvalRev (get : List Nat → Res α) : List (Cell α) → List Nat → Res 
       (ndEvalRev get cs ((l + 1) :: suffix)).bind fun b =>
         .ok (lerp a b d)
 
+/-- `v.is_nan()` -/
+def isNan (v : α) : Bool := !(decide (v ≤ v))
+
+/-- the guard of the first interpolation pass: is any of the surrounding values NaN? -/
+def ndAnyNaN (get : List Nat → Res α) : List (Cell α) → List Nat → Res Bool
+  | [], suffix => (get suffix).bind fun v => .ok (isNan v)
+  | .fixed pos :: cs, suffix => ndAnyNaN get cs (pos :: suffix)
+  | .cell l _ :: cs, suffix =>
+    (ndAnyNaN get cs (l :: suffix)).bind fun a =>
+      (ndAnyNaN get cs ((l + 1) :: suffix)).bind fun b => .ok (a || b)
+
 /-- size of the view after `index_axis_inplace` on the coincident dimensions -/
 def ndViewLen : List (Plan α) → List Nat → Nat
   | [], _ => 1
@@ -370,7 +396,9 @@ def linearN (m : ND α) (pt : List α) : Res α :=
     else
       (ndCells plan).bind fun cells =>
         if !ndSliceOk cells m.shape then .panic .index
-        else ndEvalRev m.get cells.reverse []
+        else
+          (ndAnyNaN m.get cells.reverse []).bind fun nan =>
+            if nan then .err .nan else ndEvalRev m.get cells.reverse []
 
 /-! ### `Interpolator` -/
 
@@ -485,6 +513,92 @@ def SpeedGradeModel.predict (m : SpeedGradeModel α) (speed : α) (su : SpeedUni
        (Interpolator.interpolate (.d2 x y f) [sv, gv] .linear).bind fun v => .ok (v, m.energyRateUnit)
      | _, _, _, _ => .err .emptyAxis)
   | _ => .err .only2D
+
+/-! ### `load_prediction_model`, `SmartcoreSpeedGradeModel`, `PredictionModelRecord`
+
+The random forest itself is the parameter `rf speed grade` (arguments in the model's own units);
+`fileOk = false` stands for a model file that cannot be read or deserialised. -/
+
+/-- `ModelType` -/
+inductive ModelType (α : Type) where
+  | smartcore
+  | onnx
+  | interpolate (underlying : ModelType α) (s0 s1 : α) (sb : Nat) (g0 g1 : α) (gb : Nat)
+
+/-- `dyn PredictionModel`: `predict((speed, unit), (grade, unit))` -/
+abbrev PModel (α : Type) := α → SpeedUnit → α → GradeUnit → Res (α × EnergyRateUnit)
+
+/-- `SmartcoreSpeedGradeModel::predict`: convert to the model's units, evaluate the forest -/
+def smartcorePredict (rf : α → α → α) (su : SpeedUnit) (gu : GradeUnit) (ru : EnergyRateUnit) : PModel α :=
+  fun speed qsu grade qgu => .ok (rf (qsu.convert su speed) (qgu.convert gu grade), ru)
+
+/-- `f64::MAX` -/
+def f64Max : α := Lit.lit (2 ^ 1024 - 2 ^ 971) 1
+
+/-- `find_min_energy_rate`: sweep 20..79 mph at zero percent grade, keep the smallest rate; a failing
+prediction is a `BuildError` -/
+def findMinEnergyRateFrom (m : PModel α) : List Nat → α → Res α
+  | [], acc => .ok acc
+  | i :: is, acc =>
+    match m (ofNat i) .milesPerHour (zero : α) .percent with
+    | .ok (r, _) => findMinEnergyRateFrom m is (if r < acc then r else acc)
+    | .err _ => .err .build
+    | .panic s => .panic s
+    | .diverges => .diverges
+
+def sweepSpeeds : List Nat := (List.range 60).map (· + 20)
+
+def findMinEnergyRate (m : PModel α) : Res α := findMinEnergyRateFrom m sweepSpeeds f64Max
+
+/-- `PredictionModelRecord` (no cache) -/
+structure Record (α : Type) where
+  model : PModel α
+  speedUnit : SpeedUnit
+  gradeUnit : GradeUnit
+  energyRateUnit : EnergyRateUnit
+  idealEnergyRate : α
+  realWorldEnergyAdjustment : α
+
+/-- `PredictionModelRecord::predict` without a cache: rate, times the real-world adjustment, times the
+distance in the rate's distance unit -/
+def Record.predict (r : Record α) (speed : α) (su : SpeedUnit) (grade : α) (gu : GradeUnit)
+    (distance : α) (du : DistanceUnit) : Res (α × EnergyUnit) :=
+  (r.model speed su grade gu).bind fun p =>
+    .ok (createEnergy (p.1 * r.realWorldEnergyAdjustment) r.energyRateUnit distance du)
+
+/-- the grid rows of `InterpolationSpeedGradeModel::new` when the underlying prediction may fail -/
+def fillRow (underlying : α → Res α) : List α → Res (List α)
+  | [] => .ok []
+  | g :: gs => (underlying g).bind fun v => (fillRow underlying gs).bind fun r => .ok (v :: r)
+def fillGrid (underlying : α → α → Res α) : List α → List α → Res (List (List α))
+  | [], _ => .ok []
+  | s :: ss, ys => (fillRow (underlying s) ys).bind fun row => (fillGrid underlying ss ys).bind fun r => .ok (row :: r)
+
+/-- `load_prediction_model` (and, in its `Interpolate` arm, `InterpolationSpeedGradeModel::new`, which
+loads the underlying model through `load_prediction_model` again — default ideal rate, adjustment and
+cache — and fills the grid through that record at the unit distance) -/
+def loadPredictionModel (rf : α → α → α) (fileOk : Bool) : ModelType α → SpeedUnit → GradeUnit →
+    EnergyRateUnit → Option α → Option α → Res (Record α)
+  | mt, su, gu, ru, ideal, adj =>
+    (match mt with
+     | .smartcore => if fileOk then (.ok (smartcorePredict rf su gu ru) : Res (PModel α)) else .err .build
+     | .onnx => .err .build
+     | .interpolate u s0 s1 sb g0 g1 gb =>
+       (loadPredictionModel rf fileOk u su gu ru none none).bind fun urec =>
+         (linspace s0 s1 sb).bind fun xs =>
+           (linspace g0 g1 gb).bind fun ys =>
+             (fillGrid (fun s g =>
+                (urec.predict s su g gu (one : α) ru.associatedDistanceUnit).bind fun e => .ok e.1) xs ys).bind fun f =>
+               (validate2 xs ys f).bind fun _ =>
+                 let m : SpeedGradeModel α :=
+                   { interp := .d2 xs ys f, speedUnit := su, gradeUnit := gu, energyRateUnit := ru }
+                 .ok m.predict).bind fun model =>
+      (match ideal with
+       | some x => (.ok x : Res α)
+       | none => findMinEnergyRate model).bind fun idealRate =>
+        .ok { model := model, speedUnit := su, gradeUnit := gu, energyRateUnit := ru,
+              idealEnergyRate := idealRate,
+              realWorldEnergyAdjustment := match adj with | some a => a | none => one }
 
 end
 
